@@ -261,6 +261,12 @@ func (bc *buildCtx) realImpl(d *D) interface{} {
 		return bc.redactableOf(d)
 	case "RB":
 		return bc.redactableOf(d).ToBytes()
+	case "RSlit": // a redactable string obtained from the library earlier in the run
+		return redact.RedactableString(d.S)
+	case "RBlit":
+		return redact.RedactableBytes(d.S)
+	case "rsmap": // map[RedactableString]interface{} with one key
+		return map[redact.RedactableString]interface{}{redact.RedactableString(d.Sub[0].S): bc.real(d.Sub[1])}
 	case "Builder":
 		var b redact.StringBuilder
 		b.Print(bc.redactableOf(d))
@@ -414,6 +420,9 @@ func (bc *buildCtx) reals(ds []*D) []interface{} {
 // redactableOf produces a redactable string from the library itself: the
 // Sprint/Sprintf of the sub-descriptors (S, when set, is the format).
 func (bc *buildCtx) redactableOf(d *D) redact.RedactableString {
+	if d.K == "RSlit" || d.K == "RBlit" {
+		return redact.RedactableString(d.S)
+	}
 	args := bc.reals(d.Sub)
 	if d.S != "" {
 		return redact.Sprintf(string(d.S), args...)
@@ -577,10 +586,10 @@ func (bc *buildCtx) plain(d *D) interface{} {
 	switch d.K {
 	case "Safe", "Unsafe":
 		return bc.plain(d.Sub[0])
-	case "RS", "Builder":
+	case "RS", "Builder", "RSlit":
 		// under Unsafe a redactable prints as its plain bytes
 		return string(bc.redactableOf(d))
-	case "RB":
+	case "RB", "RBlit":
 		// RedactableBytes under Unsafe prints like a []byte
 		return []byte(bc.redactableOf(d))
 	case "PBuilder":
@@ -654,7 +663,7 @@ func (bc *buildCtx) plain(d *D) interface{} {
 
 func containsWrapper(d *D) bool {
 	switch d.K {
-	case "Safe", "Unsafe", "RS", "RB", "Builder", "PBuilder", "SafeFmt", "SafeFmtErr", "SafeMsg":
+	case "Safe", "Unsafe", "RS", "RB", "RSlit", "RBlit", "rsmap", "Builder", "PBuilder", "SafeFmt", "SafeFmtErr", "SafeMsg":
 		return true
 	}
 	for _, s := range d.Sub {
@@ -698,9 +707,12 @@ func (bc *buildCtx) twin(d *D, ctx int) interface{} {
 			return nil
 		}
 		return brk{bc.plain(d.Sub[0])}
-	case "RS", "RB", "Builder", "PBuilder":
+	case "RS", "RB", "Builder", "PBuilder", "RSlit", "RBlit":
 		bc.redactables = append(bc.redactables, string(bc.redactableOf(d)))
 		return placeholder{len(bc.redactables) - 1}
+	case "rsmap":
+		bc.redactables = append(bc.redactables, string(d.Sub[0].S))
+		return map[placeholder]interface{}{{len(bc.redactables) - 1}: bc.twin(d.Sub[1], ctx)}
 	case "SafeFmt":
 		return tSafeFmtTwin{d.Sub, bc, ctxNone}
 	case "SafeFmtErr":
@@ -775,7 +787,7 @@ func (bc *buildCtx) twinSafe(d *D) interface{} {
 	switch d.K {
 	case "Safe", "Unsafe":
 		return bc.twinSafe(d.Sub[0])
-	case "RS", "RB", "Builder", "PBuilder":
+	case "RS", "RB", "Builder", "PBuilder", "RSlit", "RBlit":
 		bc.redactables = append(bc.redactables, string(bc.redactableOf(d)))
 		return placeholder{len(bc.redactables) - 1}
 	case "SafeFmt", "SafeFmtErr":
